@@ -11,5 +11,5 @@ git apply "$SD/mut$N.diff" || { echo "PATCH DOES NOT APPLY"; }
 PYTHONPATH="$D/wt/Lib" /venv/bin/python "$SD/demo$N.py" >/dev/null 2>&1; echo "demo with change:    exit $?"
 if [ -z "$SKIP_SUITE" ]; then PYTHONPATH="$D/wt/Lib" /venv/bin/python -m pytest -q -p no:cacheprovider -n 8 tests 2>&1 | tail -1; fi
 cd /verif
-REPO_LIB="$D/wt/Lib" timeout 1800 ./check $ID --tier $TIER | grep -v "^classes" | cut -c1-400
+VERIF_EVIDENCE_DIR="$D/ev" REPO_LIB="$D/wt/Lib" timeout 1800 ./check $ID --tier $TIER | grep -v "^classes" | cut -c1-400
 git -C /repo worktree remove --force "$D/wt"; rm -rf "$D"
